@@ -563,4 +563,31 @@ theorem rejects_bad_version' (bytes : List Nat) (h : versionOf ((bytes.drop 4).t
       · rfl
   · rfl
 
+theorem footer_framing' (f : List Nat) (v : Version)
+    (h : ¬ (f.head? = some 10 ∧ f.getLast? = some 10)) : parseFooter f v = .err := by
+  unfold parseFooter
+  split
+  · rfl
+  · split
+    · rfl
+    · rename_i g
+      simp only [Bool.not_eq_true', Bool.not_eq_false, Bool.and_eq_true, beq_iff_eq] at g
+      exact absurd g h
+
+theorem footer_colon_nul' (f : List Nat) (v : Version)
+    (h : (trimWs f).head? = some 58 ∨ 0 ∈ trimWs f) : parseFooter f v = .err := by
+  unfold parseFooter
+  split
+  · rfl
+  · split
+    · rfl
+    · dsimp only
+      split
+      · rfl
+      · rename_i g
+        simp only [Bool.or_eq_true, beq_iff_eq, List.contains_iff_mem, not_or] at g
+        rcases h with h | h
+        · exact absurd h g.1
+        · exact absurd h g.2
+
 end Chrono.Proofs.Tz
